@@ -1,4 +1,4 @@
 SPECIFICATION Spec
-CONSTANTS CmaxI = 129  EminNeg = 3  Emax = 3  Family = "canon"  DpMax = 0  SigMax = 0
+CONSTANTS CmaxI = 39  EminNeg = 2  Emax = 2  Family = "canon"  DpMax = 0  SigMax = 0
 INVARIANTS CanonNormalForm
 CHECK_DEADLOCK FALSE
